@@ -109,12 +109,15 @@ func (fr *Frame) guardOfFieldAddr(fa *ssa.FieldAddr) (*guardDecl, *Term) {
 // guardCheck: ownership obligation for the access `in` through address / map value `v`.
 func (fr *Frame) guardCheck(st *State, in ssa.Instruction, v ssa.Value, write bool) {
 	fc := fr.fc
-	if len(fc.eng.guardDecls()) == 0 {
+	if len(fc.eng.guardDecls()) == 0 && len(fc.eng.db.Published) == 0 {
 		return
 	}
 	var tag *guardTag
 	switch x := v.(type) {
 	case *ssa.FieldAddr:
+		if !write {
+			fr.publishedCheck(st, in, x)
+		}
 		g, lock := fr.guardOfFieldAddr(x)
 		if g == nil {
 			return
@@ -318,5 +321,91 @@ func (fr *Frame) interfere(site ssa.Instruction, p *Term, st *State) {
 				st.heaps[name] = fc.sc.Define("H_"+name, Ite(cond, h, old))
 			}
 		}
+	}
+}
+
+// ---------------------------------------------------------------------------------------------
+// Publication through a channel:   //@ published (*T).field by <chanfield> except f1, f2
+// The field is written by the one goroutine that then closes x.<chanfield>; everybody else may read it only after
+// having received from that channel (the receive is the happens-before edge - no lock is involved). `recvd` is the
+// ghost set of channels this call has received from. Every load of the field in a verified function other than the
+// listed publishers obliges x.<chanfield> in recvd (objects the function allocated itself are exempt).
+// ---------------------------------------------------------------------------------------------
+
+func (fr *Frame) noteReceived(ch *Term, st *State) {
+	fc := fr.fc
+	if len(fc.eng.db.Published) == 0 || ch == nil || ch.Sort != SInt {
+		return
+	}
+	r := fc.ghost(st, "recvd", ArrSort(SInt, SBool))
+	st.ghosts["recvd"] = fc.sc.Define("recvd", Store(r, ch, TTrue))
+}
+
+func (fr *Frame) publishedCheck(st *State, in ssa.Instruction, fa *ssa.FieldAddr) {
+	fc := fr.fc
+	if len(fc.eng.db.Published) == 0 {
+		return
+	}
+	pt, ok := fa.X.Type().Underlying().(*types.Pointer)
+	if !ok {
+		return
+	}
+	named, ok := types.Unalias(pt.Elem()).(*types.Named)
+	if !ok {
+		return
+	}
+	stt, ok := named.Underlying().(*types.Struct)
+	if !ok {
+		return
+	}
+	tn := named.Obj().Pkg().Path() + "." + named.Obj().Name()
+	fname := stt.Field(fa.Field).Name()
+	for _, b := range fc.eng.db.Published {
+		// published (*T).f by ch [except a, b]
+		h := strings.TrimSpace(strings.TrimPrefix(b.Header, "published"))
+		parts := strings.Fields(strings.ReplaceAll(h, ",", " "))
+		if len(parts) < 3 || parts[1] != "by" {
+			continue
+		}
+		recv := parts[0]
+		k := strings.LastIndex(recv, ").")
+		if k < 0 {
+			continue
+		}
+		dtn := strings.TrimPrefix(strings.TrimPrefix(recv[:k], "("), "*")
+		if !strings.Contains(dtn, ".") && b.Pkg != "" {
+			dtn = b.Pkg + "." + dtn
+		}
+		if dtn != tn || recv[k+2:] != fname {
+			continue
+		}
+		exempt := false
+		top := fr
+		for top.parent != nil {
+			top = top.parent
+		}
+		for i := 3; i < len(parts); i++ {
+			if parts[i] != "except" && (parts[i] == stripTypeArgs(fr.fn.Name()) || parts[i] == stripTypeArgs(top.fn.Name())) {
+				exempt = true
+			}
+		}
+		if exempt {
+			continue
+		}
+		ci := fieldIndex(stt, parts[2])
+		if ci < 0 {
+			unsup("%s:%d: published: channel field %s not found in %s", b.File, b.Line, parts[2], tn)
+		}
+		base, ok := fr.env[fa.X]
+		if !ok {
+			continue
+		}
+		chAddr := MkPtr(PObj(base.T), Add(PSlot(base.T), IntLit(fc.eng.ti.FieldOffset(stt, ci))))
+		ch := fc.load(st, chAddr, stt.Field(ci).Type()).T
+		okc := Select(fc.ghost(st, "recvd", ArrSort(SInt, SBool)), ch)
+		if fc.next0 != nil {
+			okc = Or(okc, Ge(PObj(base.T), fc.next0))
+		}
+		fc.oblige(st, "published", fr.path, okc, fr.pos(in), fmt.Sprintf("read of %s.%s happens after a receive from its %s channel (published through the channel, no lock)", tn, fname, parts[2]))
 	}
 }
